@@ -29,24 +29,22 @@ def getFragmentMatchesF (mode : Mode) (t : Tol) (tol : Rat) (frags : List Frag) 
 
 /-- the de-duplication key of `get_match_coverage`:
 `(label, frag.start, frag.end, frag.isotope, frag.loss, frag.monoisotopic, frag.internal)`, label = `'+'*charge + ion_type` -/
-structure CovKey where
-  charge : Nat
-  ion : Ion
-  start : Int
-  stop : Int
-  isotope : Int
-  loss : Rat
-  monoisotopic : Bool
-  internal : Bool
-  deriving DecidableEq
+abbrev CovKey := (Nat × String) × Int × Int × Int × Rat × Bool × Bool
+
+instance covKeyTailDecEq : DecidableEq (Int × Int × Int × Rat × Bool × Bool) := inferInstance
+instance : DecidableEq CovKey := instDecidableEqProd
+
+/-- `label = f"{'+' * frag.charge}{frag.ion_type}"` kept as (number of `+`, ion type text); `FragmentMatch.charge` is
+`abs(fragment.charge)` -/
+def covLabel (f : Frag) : Nat × String := (f.charge.natAbs, String.ofList f.ion.name)
 
 def covKey (f : Frag) : CovKey :=
-  ⟨f.charge.natAbs, f.ion, f.start, f.stop, f.isotope, f.loss, f.monoisotopic, f.internal⟩
+  (covLabel f, f.start, f.stop, f.isotope, f.loss, f.monoisotopic, f.internal)
 
 /-- what `get_match_coverage` reads of one match. `range(start, end)` and `cov[label][i]` are modelled for
 `0 ≤ start`, `0 ≤ end` (negative indices would wrap around in Python; `fragment()` never produces them). -/
 def covInOf (m : FragMatch) : CovIn CovKey :=
-  ⟨covKey m.fragment, m.fragment.charge.natAbs, String.ofList m.fragment.ion.name, m.fragment.start.toNat,
+  ⟨covKey m.fragment, (covLabel m.fragment).1, (covLabel m.fragment).2, m.fragment.start.toNat,
     m.fragment.stop.toNat⟩
 
 /-- `get_match_coverage(fragment_matches)`: `{}` for no matches; the row length is
